@@ -34,6 +34,18 @@ static Result run_codec(const Case &c) {
     if (s.rc != 0) { r.fail("encode failed rc=" + std::to_string(s.rc)); return r; }
     if (s.cleanup_rc != 0) { r.fail("encode_cleanup rc=" + std::to_string(s.cleanup_rc)); return r; }
     if ((int)s.frags.size() != g.n()) { r.fail("fragment count"); return r; }
+    // who reads: the instance that wrote the stripe, or a FRESH instance of the same configuration that has never encoded
+    // or decoded anything (1: it decodes first, 2: its very first operation is a rebuild)
+    int rdesc = in.desc;
+    std::unique_ptr<Instance> reader;
+    int fresh_reader = (int)c.get("fresh_reader", 0);
+    if (fresh_reader) {
+        reader.reset(new Instance(g));
+        if (!reader->ok()) { r.fail("create of a second instance of the same configuration failed rc=" + std::to_string(reader->desc)); return r; }
+        rdesc = reader->desc;
+        r.cls(fresh_reader == 2 ? "fresh_reader_rebuild_first" : "fresh_reader");
+    }
+    const bool do_decode = c.get("decode", 1) != 0 && fresh_reader != 2;
     int n = g.n(), t = ref::tolerance(g);
     std::vector<int> present = c.ints("present"), align = c.ints("align"), dests = c.ints("dests");
     uint64_t pm = maskof(present, n);
@@ -64,26 +76,26 @@ static Result run_codec(const Case &c) {
     if (g.ct == CT_CRC32) r.cls("crc32");
 
     int guard = (int)c.get("guard", 0);
-    if (guard && c.get("decode", 1)) {
+    if (guard && do_decode) {
         // same call with every input on read-only pages ending/starting at guard pages: a write to an input or a
         // read outside it is a fault (C02: "never read or write outside the buffers they were given")
         GuardedSet gset; gset.build(frs, align, guard);
         char *out = nullptr; uint64_t ol = 0;
-        int rc = liberasurecode_decode(in.desc, gset.ptrs, gset.count, s.fraglen, force, &out, &ol);
-        if (rc == 0) { if (ol != data.size() || (ol && memcmp(out, data.data(), ol))) r.fail("decode (guarded inputs) returned success with wrong bytes"); liberasurecode_decode_cleanup(in.desc, out); }
+        int rc = liberasurecode_decode(rdesc, gset.ptrs, gset.count, s.fraglen, force, &out, &ol);
+        if (rc == 0) { if (ol != data.size() || (ol && memcmp(out, data.data(), ol))) r.fail("decode (guarded inputs) returned success with wrong bytes"); liberasurecode_decode_cleanup(rdesc, out); }
         else if (rc > 0) r.fail("positive rc");
         else if (must_exact) r.fail("decode (guarded inputs) failed rc=" + std::to_string(rc) + " although erasures are within tolerance");
         for (int d : dests) if (d >= 0 && d < n) {
             std::vector<uint8_t> o(s.fraglen, 0xA5);
-            rc = liberasurecode_reconstruct_fragment(in.desc, gset.ptrs, gset.count, s.fraglen, d, (char *)o.data());
+            rc = liberasurecode_reconstruct_fragment(rdesc, gset.ptrs, gset.count, s.fraglen, d, (char *)o.data());
             if (rc == 0 && o != s.frags[d]) r.fail("reconstruct (guarded inputs) succeeded with different bytes");
             if (rc < 0 && must_exact) r.fail("reconstruct (guarded inputs) failed within tolerance");
         }
         r.cls("guarded_inputs");
     }
-    if (c.get("decode", 1)) {
+    if (do_decode) {
         FragSet fs; fs.build(frs, align);
-        DecodeOut d = decode(in.desc, fs, s.fraglen, force);
+        DecodeOut d = decode(rdesc, fs, s.fraglen, force);
         if (!fs.unchanged()) r.fail("decode modified an input fragment");
         if (d.rc == 0) {
             if (d.out_len != data.size() || d.out != data)
@@ -114,7 +126,7 @@ static Result run_codec(const Case &c) {
             if (out_prefill == 1 && !other.empty()) pf = other[d];
             else if (out_prefill == 2) { pf.assign(s.frags[d].begin(), s.frags[d].begin() + std::min<size_t>(80, s.frags[d].size())); pf.resize(s.frags[d].size(), 0); }
         }
-        ReconOut o = reconstruct(in.desc, fs, s.fraglen, d, pf.empty() ? nullptr : &pf);
+        ReconOut o = reconstruct(rdesc, fs, s.fraglen, d, pf.empty() ? nullptr : &pf);
         if (!fs.unchanged()) r.fail("reconstruct modified an input fragment");
         bool in_range = d >= 0 && d < n;
         if (!in_range) {
@@ -232,6 +244,7 @@ static Case gen_c01() {
     c.set("pool", coin(1, 3) ? 1 : 0);
     c.set("wenv", weighted({6, 2, 1, 1}));
     c.set("guard", coin(1, 6) ? (int)pick(1, 65535) : 0);      // also with every input on read-only pages next to guard pages
+    c.set("fresh_reader", weighted({5, 1, 0}));
     return c;
 }
 static Case gen_c02() {
@@ -259,6 +272,7 @@ static Case gen_c02() {
     c.setv("dests", dests);
     c.set("pool", coin(1, 3) ? 1 : 0);
     c.set("guard", coin(1, 4) ? (int)pick(1, 65535) : 0);
+    c.set("fresh_reader", weighted({4, 1, 1}));
     return c;
 }
 static Case gen_c03() {
@@ -292,6 +306,7 @@ static Case gen_c03() {
     c.set("pool", coin(1, 3) ? 1 : 0);
     c.set("wenv", weighted({6, 2, 1, 1}));
     c.set("out_prefill", weighted({3, 2, 1}));
+    c.set("fresh_reader", weighted({4, 1, 2}));
     return c;
 }
 
@@ -452,6 +467,7 @@ static void sweep_rs_boundary(const RunFn &run, int backend, bool parity_dests) 
             if (parity_dests) for (int x : E) if (x < k) { dests.push_back(x); break; }
             c.setv("dests", dests);
             c.set("out_prefill", (counter / 2) % 3);
+            c.set("fresh_reader", (counter / 3) % 3);
             sweep_case(c, run);
         }
     stats().extra["rs_shapes"] = 496;
@@ -488,6 +504,7 @@ static void sweep_all_subsets(const RunFn &run, int max_n_xor, int max_n_rs) {
             c.setv("dests", dests);
             // subsets the code must handle are also presented on guarded read-only pages
             if (n - __builtin_popcountll(mask) <= ref::tolerance(g) && (counter % 2) == 0) c.set("guard", 1 + (counter & 0x3ff));
+            c.set("fresh_reader", (counter / 5) % 3);        // writer reads / a fresh instance reads / a fresh instance rebuilds first
             sweep_case(c, run);
         }
     }
